@@ -53,7 +53,8 @@ func crashBoxPlan(i int) spec.Plan {
 						for si := 0; si < s; si++ {
 							var sq spec.Seq
 							for ai := 0; ai < a; ai++ {
-								sq.Actions = append(sq.Actions, spec.Action{Steps: step(i&(1<<bit) == 0, 300)})
+								// retry budgets 0,1,2 in turn: an action with budget left but a durable result must not run again
+								sq.Actions = append(sq.Actions, spec.Action{Steps: step(i&(1<<bit) == 0, 300), Retries: bit % 3})
 								bit++
 							}
 							blk.Seqs = append(blk.Seqs, sq)
@@ -78,7 +79,7 @@ func crashBoxPlan(i int) spec.Plan {
 		}
 		groups[g] = &spec.Checks{DelayUS: 700, Actions: []spec.Action{{Steps: step(d == 1, 200)}}}
 	}
-	blk := spec.Block{Conc: 1, Tol: 0, Seqs: []spec.Seq{{Actions: []spec.Action{{Steps: step(true, 1500)}, {Steps: step(true, 300)}}}}}
+	blk := spec.Block{Conc: 1, Tol: 0, Seqs: []spec.Seq{{Actions: []spec.Action{{Steps: step(true, 1500), Retries: 1}, {Steps: step(true, 300)}}}}}
 	if level == 0 {
 		p.Bypass, p.Pre, p.Cont, p.Post, p.Deferred = groups[0], groups[1], groups[2], groups[3], groups[4]
 	} else {
@@ -103,7 +104,33 @@ func crashRandPlan(r *rand.Rand) spec.Plan {
 	g.MaxContFailRun = 1 // a failing continuous check always fails (function of the action alone)
 	g.NoBlockDelays = true
 	g.PFailSeqAction = 0.2
-	return g.Plan(r, "p0")
+	p := g.Plan(r, "p0")
+	// retry budgets on single-step scripts: the outcome stays a function of the action alone, but recovery sees
+	// actions that have budget left next to a durable result
+	addRetries := func(c *spec.Checks) {
+		if c != nil {
+			for i := range c.Actions {
+				c.Actions[i].Retries = r.Intn(3)
+			}
+		}
+	}
+	addRetries(p.Bypass)
+	addRetries(p.Pre)
+	addRetries(p.Post)
+	addRetries(p.Deferred)
+	for bi := range p.Blocks {
+		b := &p.Blocks[bi]
+		addRetries(b.Bypass)
+		addRetries(b.Pre)
+		addRetries(b.Post)
+		addRetries(b.Deferred)
+		for si := range b.Seqs {
+			for ai := range b.Seqs[si].Actions {
+				b.Seqs[si].Actions[ai].Retries = r.Intn(4)
+			}
+		}
+	}
+	return p
 }
 
 // crashPlanOf maps a case index to a plan: quick samples the box by PRNG and adds random plans;
@@ -391,6 +418,7 @@ func exploreCrashes(ps *spec.Plan, r *rand.Rand, secondOneIn int, res *CaseResul
 	// workers run them concurrently; everything that touches res or the visitor is under mu
 	var mu sync.Mutex
 	var hangs atomic.Int32
+	seen := map[string]bool{} // durable states already recovered from (second crashes)
 	seconds := make([]bool, cp.NW+1)
 	for k := range seconds {
 		seconds[k] = r.Intn(secondOneIn) == 0
@@ -418,9 +446,11 @@ func exploreCrashes(ps *spec.Plan, r *rand.Rand, secondOneIn int, res *CaseResul
 			mu.Unlock()
 			return
 		}
+		sig0, _ := crash.StateSig(rs.Vault)
 		mu.Lock()
 		res.Counters["crash_points"]++
 		res.Counters["sk_plan_"+stName(sk.Status("P"))]++
+		seen[sig0] = true // a second-crash state equal to a first-crash state needs no second look
 		mu.Unlock()
 		if sk.Status("P") != spec.Running {
 			// nothing to resume (C11 decides that such plans are left untouched)
@@ -444,8 +474,29 @@ func exploreCrashes(ps *spec.Plan, r *rand.Rand, secondOneIn int, res *CaseResul
 		if !second {
 			return
 		}
+		// second crashes: step through the writes of this recovery on one store, and recover (on a fresh store)
+		// from every durable state that has not been seen for this plan yet
 		n2 := cap2.Len()
-		for j := 0; j < n2 && hangs.Load() < 3; j++ {
+		stepper, err := crash.Restore([]crash.Layer{{Cap: cp.Cap, K: k}}, nil)
+		if err != nil {
+			return
+		}
+		for j := 1; j < n2 && hangs.Load() < 3; j++ {
+			if err := stepper.Apply(cap2, j-1); err != nil {
+				return
+			}
+			sig, err := crash.StateSig(stepper.Vault)
+			if err != nil {
+				return
+			}
+			mu.Lock()
+			res.Counters["second_crash_states_stepped"]++
+			dup := seen[sig]
+			seen[sig] = true
+			mu.Unlock()
+			if dup {
+				continue
+			}
 			rs2, err := crash.Restore([]crash.Layer{{Cap: cp.Cap, K: k}, {Cap: cap2, K: j}}, nil)
 			if err != nil {
 				continue
@@ -621,13 +672,13 @@ func crashCases(tier string) int {
 // secondOneIn: one crash point in n is followed by every second crash during its recovery.
 func secondOneIn(tier string) int {
 	if tier == "thorough" {
-		return 10
+		return 2
 	}
-	return 30
+	return 5
 }
 
 func init() {
-	crashRule := "case i = one plan and EVERY prefix k of its committed write sequence (captured with sqlite.WithCapture during an uninterrupted run, replayed into a fresh in-memory store, then a normal Workstream recovers); a PRNG share of the crash points (quick 1/30, thorough 1/10) is followed by every second crash during recovery; quick: 12 PRNG samples of the bounded box + 6 random plans; thorough: the whole box (1272 shapes blocks<=2 x sequences<=2 x actions<=2 x outcome masks x tolerance{0,1} x concurrency{1,2}, plus 486 = every subset x pass/fail of the five check groups at plan and block level) + 300 random plans; plugin outcomes are a function of the action alone; cross-validation of the crash model by real kills (quick 8, thorough 200 cases): a process running a random plan on a FILE-backed store SIGKILLs itself immediately before/after its PRNG-chosen k-th write, a second process opens the directory, snapshots, recovers and reports, same oracles; distinct by plan spec"
+	crashRule := "case i = one plan and EVERY prefix k of its committed write sequence (captured with sqlite.WithCapture during an uninterrupted run, replayed into a fresh in-memory store, then a normal Workstream recovers); for a PRNG share of the crash points (quick 1/5, thorough 1/2) the writes of the recovery run are stepped through one by one and a second recovery is run from every durable state not seen before for that plan (second crash); quick: 12 PRNG samples of the bounded box + 6 random plans; thorough: the whole box (1272 shapes blocks<=2 x sequences<=2 x actions<=2 x outcome masks x tolerance{0,1} x concurrency{1,2}, plus 486 = every subset x pass/fail of the five check groups at plan and block level) + 300 random plans; plugin outcomes are a function of the action alone; cross-validation of the crash model by real kills (quick 8, thorough 200 cases): a process running a random plan on a FILE-backed store SIGKILLs itself immediately before/after its PRNG-chosen k-th write, a second process opens the directory, snapshots, recovers and reports, same oracles; distinct by plan spec"
 	register(&Prop{
 		ID: "C09", Level: "fault_enumeration", Batch: 1, PerCaseTimeout: 300 * time.Second,
 		Rule: crashRule + "; non-trivial = the plan has at least one crash point with a durable action result", Cases: crashCases,
